@@ -25,13 +25,13 @@ type world struct {
 	blocks []*reftx.Block // heights 1..prefixLen
 	cb     [][32]byte     // coinbase txid per height
 	tipH   [32]byte
-	b106   *reftx.Block   // block with three transactions
-	txT    *reftx.Tx      // valid spend of a mature anyone-can-spend coinbase
-	txW    *reftx.Tx      // same with a (superfluous) witness stack
-	n1     *reftx.Block   // height 111: coinbase + txT
-	n2     *reftx.Block   // height 112 on n1
-	n1c    *reftx.Block   // height 111 sibling: coinbase only
-	n1d    *reftx.Block   // height 111 sibling: coinbase + txT (for two prefilled)
+	b106   *reftx.Block // block with three transactions
+	txT    *reftx.Tx    // valid spend of a mature anyone-can-spend coinbase
+	txW    *reftx.Tx    // same with a (superfluous) witness stack
+	n1     *reftx.Block // height 111: coinbase + txT
+	n2     *reftx.Block // height 112 on n1
+	n1c    *reftx.Block // height 111 sibling: coinbase only
+	n1d    *reftx.Block // height 111 sibling: coinbase + txT (for two prefilled)
 }
 
 func o1(v uint64) reftx.Out { return reftx.Out{Value: v, Script: []byte{0x51}} }
@@ -186,7 +186,7 @@ func versionPl(ua string, services uint64, tail bool) []byte {
 	b := le32(70016)
 	b = append(b, le64(services)...)
 	b = append(b, le64(1700000000)...)
-	b = append(b, netaddr(0x409, [4]byte{8, 8, 4, 4}, 8333)...)         // addr_recv: how the peer sees us
+	b = append(b, netaddr(0x409, [4]byte{8, 8, 4, 4}, 8333)...)          // addr_recv: how the peer sees us
 	b = append(b, netaddr(services, [4]byte{93, 184, 216, 34}, 8333)...) // addr_from
 	b = append(b, 0x11, 0x22, 0x33, 0x44, 0x55, 0x66, 0x77, 0x88)
 	b = append(b, cs(uint64(len(ua)))...)
